@@ -391,6 +391,7 @@ impl Prop for C11Prop {
             Sub { name: "large", kind: SubKind::Enum { count: large_cases().len() as u64 } },
             Sub { name: "long-lists", kind: SubKind::Random { cases: tier.pick(60_000, 3_000_000), len: 300 } },
             Sub { name: "placeholder", kind: SubKind::Enum { count: placeholder_cases().len() as u64 } },
+            Sub { name: "many-calls", kind: SubKind::Enum { count: 4 * 4 * 10 } },
             Sub { name: "big-lists", kind: SubKind::Enum { count: big_list_cases().len() as u64 } },
             Sub { name: "dec-mixed", kind: SubKind::Enum { count: dec_mixed_cases().len() as u64 } },
             Sub { name: "nested", kind: SubKind::Random { cases: tier.pick(150_000, 5_000_000), len: 80 } },
@@ -408,6 +409,16 @@ impl Prop for C11Prop {
         }
         if sub == "big-lists" {
             return big_list_cases().get(idx as usize).cloned();
+        }
+        if sub == "many-calls" {
+            // many aggregate calls side by side in one expression: f(1,3)+f(2,4)+…; nothing is nested, every call is small
+            let ev = EVS[(idx % 4) as usize];
+            let f = ["min", "max", "avg", "med"][(idx / 4) as usize % 4];
+            let n = [2usize, 50, 100, 127, 128, 129, 130, 200, 257, 400][(idx / 16) as usize % 10];
+            let terms: Vec<String> = (0..n).map(|k| format!("{}({},{})", f, k + 1, k + 3)).collect();
+            let mut c = Case::new(ev, terms.join("+"), Val::default_for(ev));
+            c.aux = vec![f.to_string(), n.to_string(), "many-calls".into()];
+            return Some(c);
         }
         if sub == "failing" {
             // (ev, func, length 1..=5, failing position) and empty lists
@@ -619,6 +630,27 @@ impl Prop for C11Prop {
                     return Err(Failure::new(format!("{}/aggregate-big-list/{}", ev.name(), canon), format!("{:?} within 1e-12 relative (exact value {}/{})", want, num, den), o.show()));
                 }
                 sc.class(&format!("{}:{} of large whole numbers", ev.name(), canon));
+                sc.nontrivial(case.hash(), || sample(case, &o.show()));
+                return Ok(());
+            }
+            Some("many-calls") => {
+                let n: i128 = case.aux[1].parse().unwrap_or(0);
+                // sum over k = 0..n-1 of min = k+1, max = k+3, avg = med = k+2
+                let base = n * (n - 1) / 2;
+                let want = match canon {
+                    "min" => base + n,
+                    "max" => base + 3 * n,
+                    _ => base + 2 * n,
+                };
+                let ok = match &o {
+                    Outcome::Ok(Val::I(g)) | Outcome::Ok(Val::NI(g)) => *g as i128 == want,
+                    Outcome::Ok(v) => v.as_f64() == want as f64,
+                    _ => false,
+                };
+                if !ok {
+                    return Err(Failure::new(format!("{}/aggregate-many-calls/{}", ev.name(), canon), format!("{} (sum of {} calls)", want, n), o.show()));
+                }
+                sc.class(&format!("{}:{} x many calls", ev.name(), canon));
                 sc.nontrivial(case.hash(), || sample(case, &o.show()));
                 return Ok(());
             }
